@@ -1023,7 +1023,18 @@ impl<Front: SocketHandler + std::fmt::Debug, L: ListenerHandler + L7ListenerHand
                         dead_backends.push(*token);
                     }
 
-                    if !client.readiness().filter_interest().is_empty() {
+                    let mut pending = client.readiness().filter_interest();
+                    if dead && client.has_buffer_pressure(&self.context) {
+                        // A backend that hung up behind data still to be read is
+                        // kept until the frontend has drained some of its buffer.
+                        // Its HUP stays set meanwhile and is not work to do: left
+                        // in, it keeps this loop spinning while the client socket
+                        // is not writable, up to the iteration guard, which closes
+                        // the session and with it a response that was complete.
+                        pending.remove(Ready::HUP);
+                        pending.remove(Ready::ERROR);
+                    }
+                    if !pending.is_empty() {
                         all_backends_readiness_are_empty = false;
                     }
                 }
